@@ -8,7 +8,7 @@ CHECKS = {
    text="The lifecycle contract is a Lean acceptor over observed rows (drift_state, total, since, retraining_recs): Lean theorems show it decides the "
         "declarative contract and that acceptance implies the user-facing clauses (total counts updates and never goes back, since advances by one "
         "except on the update after a drift / when a kdq reference completes, no report before the warm-up of each detector kind, recommendations "
-        "end at the current sample); further theorems show the Lean detector models are accepted on every history. The same acceptor is executed "
+        "end at the current sample); further theorems show that every one of the 15 Lean detector models is accepted on every history. The same acceptor is executed "
         "(via mdriver) on multi-drift traces of all 15 real detectors; a rejected row is a concrete failing input.",
    note="Trusted: Lean kernel; the acceptor's table of warm-up rules and restart values (11 kinds, stated in Model/Lifecycle.lean) as the reading of the "
         "property; input-derived signals (EDDM error count, ADWIN width from retraining_recs, kdq reference completion) reconstructed by the harness; "
@@ -18,7 +18,8 @@ CHECKS = {
  "C02": dict(
    text="Lean twin theorems (simulation relation preserved by every step, established by the update that follows a drift): for every history ending in a "
         "reported drift and every continuation, the running detector model reports what a fresh model reports on the continuation, total shifted; "
-        "carrier-free, so valid for the executed Float instance. On the real classes the same relation is executed: fresh twins (documented carry-over "
+        "carrier-free, so valid for the executed Float instance; all ten families of the property (DDM, EDDM, STEPD, PageHinkley, CUSUM, KdqTreeStreaming, "
+        "KdqTreeBatch, HDDDM/CDBD for detect_batch 1-3, NNDVI) incl. set_reference twins for the batch detectors. On the real classes the same relation is executed: fresh twins (documented carry-over "
         "only, built from public data) are started at reported drifts and at explicit set_reference calls and compared after every update of all later "
         "epochs, stochastic detectors under a per-call numpy seed schedule.",
    note="Trusted: Lean kernel; hand-written detector models (tied to the code by the correspondence checks of C04/C05/C07/C09/C10); the twin runs are "
@@ -28,7 +29,10 @@ CHECKS = {
  "C17": dict(
    text="Lean: generic first-alarm monotonicity (threshold-free statistics run + decision antitone in strictness => first alarm under the strict "
         "threshold is never earlier), a link lemma (a detector model's first reported drift = first alarm of the abstract system) and per-detector "
-        "instances; PageHinkley is proved only under 'running means non-negative' (_partial) and the counter-example for a negative mean is proved "
+        "instances; for the families whose pre-alarm state depends on the threshold (kdq persistence counter, HDDDM/CDBD recorded beta, LFR bounds cache) a "
+        "simulation lemma (looser vs stricter run related until the looser alarms) with nearest-rank quantile / linear percentile / beta monotonicity; all 13 "
+        "families are instantiated (CUSUM, DDM, EDDM, STEPD, NNDVI, ADWIN, ADWINAccuracy, KdqTreeStreaming, KdqTreeBatch, HDDDM/CDBD stdev and tstat, LFR); "
+        "PageHinkley is proved under 'looser threshold > 0 or running means non-negative' (_partial) and the counter-example for a negative mean is proved "
         "(known finding F12). On the real classes: paired runs under ordered threshold pairs on the same history and seed schedule for 13 families; "
         "first-drift indices compared, warning-only changes compared on full traces.",
    note="Trusted: Lean kernel; scipy critical values antitone in alpha (oracle hypothesis); detector models tied to the code by the per-detector "
@@ -75,8 +79,9 @@ CHECKS = {
         "fields: a rate changes exactly on the samples of its row/column, the statistic is the exponentially weighted average over exactly those samples "
         "(closed form), np.percentile(linear) model. Tied to lfr.py by exhaustive correspondence over all {0,1}^2 sequences of length <= 6/7 plus random "
         "histories, with the Monte-Carlo draws captured from np.random.binomial.",
-   note="Trusted: Lean kernel; numpy RNG (Monte-Carlo quality of the bounds only covered by a statistical test, labelled a test); Float rounding; excluded: "
-        "parallelize=True, repeated/unknown rate names, subsample=0, num_mc=0, non-0/1 labels. Percentile monotonicity in the level is not proved.",
+   note="Trusted: Lean kernel; numpy RNG (Monte-Carlo quality of the bounds only covered by a statistical test, labelled a test); Float rounding; parallelize=True "
+        "is not modelled but tied to the serial branch by twin runs on the real class under content-addressed draws; excluded: repeated/unknown rate names, "
+        "subsample=0, num_mc=0, non-0/1 labels. (Percentile monotonicity in the level is proved under C17.)",
    technique="Lean 4 proof (loop invariants, simulation relation, field algebra) + differential correspondence with captured draws + declarative spec and twin runs on the real class",
    ref="§7 C06"),
  "C10": dict(
